@@ -118,7 +118,7 @@ def loadMeta (ms : Bytes) : MetaLoad :=
   match unpack8 ms with
   | .error e => .err e.str
   | .ok (f, read) =>
-    if ms.length ≤ read then .err "eof"
+    if ms.length ≤ read ∧ f ≠ fRAW then .err "eof"     -- only raw data may be empty (loadFormat)
     else
       let body := ms.drop read
       if f = fRAW then .err "israw"
